@@ -291,11 +291,17 @@ func (c *Calcium) filterNodes(ctx context.Context, nodeFilter *types.NodeFilter)
 		if len(ns) == 0 {
 			return
 		}
-		// sorted by nodenames
-		nodenames := utils.Map(ns, func(node *types.Node) string { return node.Name })
-		// unique
-		p := utils.Unique(nodenames, func(i int) string { return nodenames[i] })
-		ns = ns[:p]
+		// unique: keep the first occurrence of every node (cutting the list at the number of
+		// distinct names would drop the nodes named after a repeat)
+		seen := map[string]struct{}{}
+		uniq := ns[:0]
+		for _, node := range ns {
+			if _, ok := seen[node.Name]; !ok {
+				seen[node.Name] = struct{}{}
+				uniq = append(uniq, node)
+			}
+		}
+		ns = uniq
 	}()
 
 	if len(nodeFilter.Includes) != 0 {
